@@ -744,6 +744,25 @@ fn main() {
     for (total, t) in &targeted {
         check_cue_text(&mut st, *total, t, "targeted", true);
     }
+    // argument edge cases for every keyword: lone / unbalanced / empty quotes, blanks, nothing at all
+    let odd_args = ["\"", "\"\"", "\"a", "a\"", "", " ", "\"\"\"", "'", "\" \"", "\"\t", "\u{e9}\"", "\"\u{e9}"];
+    for kw in ["CATALOG", "ISRC", "FILE", "TITLE", "PERFORMER", "TRACK", "INDEX", "FLAGS", "REM", "PREGAP"] {
+        for a in odd_args.iter() {
+            for sep in [" ", "  ", "\t"] {
+                let line = format!("{}{}{}", kw, sep, a);
+                // at top level, inside a track before its indices, and after an index
+                let texts = [
+                    format!("{}\nFILE \"x\" WAVE\n TRACK 01 AUDIO\n  INDEX 01 00:00:00\n", line),
+                    format!("FILE \"x\" WAVE\n TRACK 01 AUDIO\n  {}\n  INDEX 01 00:00:00\n", line),
+                    format!("FILE \"x\" WAVE\n TRACK 01 AUDIO\n  INDEX 01 00:00:00\n  {}\n", line),
+                    format!("FILE \"x\" WAVE\n TRACK 01 AUDIO\n  INDEX 01 00:00:00\n{}", line),
+                ];
+                for t in texts.iter() {
+                    check_cue_text(&mut st, 588 * 1000, t, "keyword-argument-edges", true);
+                }
+            }
+        }
+    }
 
     // ---------------------------------------------------------------- (3) image headers
     let mut rng = Rng::new(seed, 0xC12C);
